@@ -189,6 +189,9 @@ PROPS = {
         "sweeps": [sweep_front("mixed", 160, 6000, cats=["body", "slice", "hook", "header", "errflow"], compile=True),
                    sweep_front("matching", 100, 3000, cats=["body", "slice"], compile=True),
                    sweep_front("notations", 60, 2000, cats=["body", "slice"], compile=True),
+                   sweep_front("getters", 60, 2000, cats=["body", "slice"], compile=True),
+                   sweep_front("selection", 40, 1500, cats=["body", "header"], compile=True),
+                   sweep_front("generics", 40, 1500, cats=["body", "slice", "header"], compile=True),
                    sweep_front("slices", 60, 2000, cats=["body", "slice"], compile=True),
                    sweep_front("hooks", 60, 2000, cats=["hook"], compile=True)],
         "rule": FRONT_RULE % "mixed" + "; judge: every emitted file is compiled in its package (go build -gcflags=-e, setup file excluded "
@@ -223,7 +226,8 @@ PROPS = {
                    sweep_front("mixed", 100, 3000, cats=["exit", "missing-func"]),
                    sweep_front("hooks", 60, 2000, cats=["exit", "missing-func"]),
                    sweep_front("notations", 80, 2000, cats=["exit", "missing-func"]),
-                   sweep_front("signatures", 60, 2000, cats=["exit", "missing-func"])],
+                   sweep_front("signatures", 60, 2000, cats=["exit", "missing-func"]),
+                   sweep_front("selection", 60, 2000, cats=["exit", "missing-func"])],
         "rule": "well-formed setup files with unusual layouts (no comments, one-line interfaces, comments on brace lines, adjacent "
                 "declarations, several interfaces, CRLF, no final newline, directives in both spellings, surrounding declarations of "
                 "every kind) and well-formed notation mixes; judged: exit 0 and one function per method; distinct = distinct "
@@ -418,5 +422,30 @@ PROPS = {
 }
 
 # what assurance each check gives, in our own words (MANIFEST level_claimed.text)
+PARTIAL = {
+    "C01": "Go's typing of the emitted text is judged by compiling every emitted file (and gofmt -l), not proved; gofmt-cleanliness, import "
+           "pruning and the printing of carried-over declarations are go/printer / goimports behaviour seen by the sweeps only",
+    "C02": "what Go does when it executes the emitted statements (evaluation order, aliasing, nil dereference, conversions) is validated "
+           "by running the generated functions on value variants, not proved",
+    "C03": "acceptance by go list, goimports and go/printer is observed by the sweeps, not modelled; marker freshness is assumed",
+    "C07": "the run-time behaviour of the emitted error checks is validated by executing the generated functions under fault plans",
+    "C10": "call order and argument passing at run time are validated by executing the generated functions with instrumented hooks",
+    "C11": "the printing of the carried-over declarations (go/printer) and import pruning (goimports) are observed, not modelled",
+    "C12": "what go list / go/packages do with the content at the output path is observed on generated histories, not modelled",
+    "C13": "go list, goimports and the printer are assumed deterministic; observed by repeated runs under changed cwd/env/time",
+    "C14": "crashes or hangs inside the loader, goimports or the printer can only be observed; the model covers parser and builder",
+    "C16": "freshness of the storage and nil-ness at run time are validated by executing the generated functions",
+    "C19": "RE2 itself is an oracle (regexp.MatchString); the theorems are about how patterns are turned into expressions and applied",
+}
+
 LEVEL_TEXT = {}
+for _pid, _cfg in PROPS.items():
+    _t = ("Theorems in Lean 4 about an executable model of convergen, for every input the property quantifies over "
+          "(all type tables, option sets, notation lists, nesting depths, world states); the model is tied to /repo on every run: "
+          "renderers and tables are regenerated from the Go source and proved equal to the model (Bridge), the hand-written parts "
+          "are run against the built CLI on generated inputs and every difference is localised and judged. Proved: "
+          + _cfg.get("explanation", "") + ".")
+    if _pid in PARTIAL:
+        _t += " PARTIAL: " + PARTIAL[_pid] + "."
+    LEVEL_TEXT[_pid] = _t
 NOT_APPLICABLE = {}
